@@ -22,7 +22,7 @@ var DHPrime, _ = new(big.Int).SetString(dhPrimeHex, 16)
 type Lie struct {
 	Step  string // resPQ | dhParams | dhInner | dhGen
 	Field string // nonce | server_nonce | fingerprints | answer_hash | new_nonce_hash | kind | g_a ...
-	How   string // flip | fresh | other | zero | fail | retry | several | none (fingerprints)
+	How   string // flip | flip2 | swap | fresh | other | zero | fail | retry | several | none (fingerprints)
 	Bit   int    // bit position for flip
 }
 
@@ -335,6 +335,23 @@ func corrupt(l *Lie, v []byte, other []byte) []byte {
 	switch l.How {
 	case "flip":
 		out[(l.Bit/8)%len(out)] ^= 1 << uint(l.Bit%8)
+	case "flip2": // the same bit of two different bytes
+		i := (l.Bit / 8) % len(out)
+		j := (i + 1 + l.Bit%(len(out)-1)) % len(out)
+		out[i] ^= 1 << uint(l.Bit%8)
+		out[j] ^= 1 << uint(l.Bit%8)
+	case "swap": // two unequal bytes change places
+		i := (l.Bit / 8) % len(out)
+		for k := 1; k < len(out); k++ {
+			j := (i + k) % len(out)
+			if out[i] != out[j] {
+				out[i], out[j] = out[j], out[i]
+				break
+			}
+		}
+		if bytes.Equal(out, v) {
+			out[0] ^= 0x81
+		}
 	case "fresh":
 		rand.Read(out)
 	case "other":
